@@ -125,6 +125,23 @@ def derive_queue(rep, name):
     rep[p] = dst
 
 
+def derive_fsync(rep, name):
+    """fileutil.Fsync/Fdatasync get an observer call after a successful sync (C05): the crash
+    image enumerator needs to know which bytes were durable at which moment."""
+    p = os.path.join(REPO, "pkg/fileutil/sync_linux.go")
+    src = open(rsrc(p)).read()
+    a1 = "func Fsync(f *os.File) error {\n\treturn f.Sync()\n}"
+    a2 = "func Fdatasync(f *os.File) error {\n\treturn syscall.Fdatasync(int(f.Fd()))\n}"
+    if src.count(a1) != 1 or src.count(a2) != 1:
+        infra("fileutil sync anchors not found")
+    out = src.replace(a1, "func Fsync(f *os.File) error {\n\terr := f.Sync()\n\tif err == nil && VerifSyncHook != nil {\n\t\tVerifSyncHook(f, false)\n\t}\n\treturn err\n}")
+    out = out.replace(a2, "func Fdatasync(f *os.File) error {\n\terr := syscall.Fdatasync(int(f.Fd()))\n\tif err == nil && VerifSyncHook != nil {\n\t\tVerifSyncHook(f, true)\n\t}\n\treturn err\n}")
+    out += "\n// VerifSyncHook is called after every successful sync (injected by /verif's overlay).\nvar VerifSyncHook func(f *os.File, dataOnly bool)\n"
+    dst = os.path.join(BUILD, "derived", name, "sync_linux.go")
+    write_if_changed(dst, out)
+    rep[p] = dst
+
+
 def derive_pdcoord(rep, name):
     """doCheckNamespaces starts with a fixed 10 ms sleep (debounce); the explorer calls it
     tens of thousands of times, so the derived copy drops that one statement."""
@@ -187,6 +204,7 @@ def main():
     if "--noqueue" not in args:
         derive_queue(rep, name)
     derive_pdcoord(rep, name)
+    derive_fsync(rep, name)
     if "--vclock" in args:
         derive_vclock(rep, name)
     if "--crash" in args:
